@@ -1108,9 +1108,15 @@ pub fn run_transport(cfg: &TransportCfg, sc: &mut Sc) {
             if expect.is_none() {
                 // the APPLICATION installed one and the same key by hand in both directions: a message of the other
                 // direction with this counter under that key IS an encryption under (key, counter) -- not snow's doing
-                let (rn, rk) = (dirs[d].recv_n, dirs[d].recv_key.clone());
-                if rk.starts_with("M(") {
-                    if let Some(x) = dirs[1 - d].sent.iter().find(|(n, m, _, key)| *n == rn && *m == msg && *key == rk) {
+                // (identities compared as keys: the split key "k" of a direction is M(<its bytes>) where those are known)
+                let raw = sc.raw_keys;
+                let canon = |id: &str, dir: usize| match raw {
+                    Some((a, b)) => id.replace('k', &format!("M({})", hex(if dir == 0 { &a } else { &b }))),
+                    None => id.to_string(),
+                };
+                let (rn, rk) = (dirs[d].recv_n, canon(&dirs[d].recv_key, d));
+                if !rk.contains('k') {
+                    if let Some(x) = dirs[1 - d].sent.iter().find(|(n, m, _, key)| *n == rn && *m == msg && canon(key, 1 - d) == rk) {
                         expect = Some(x.2.clone());
                         sc.count("t.same_manual_key_both_directions");
                     }
@@ -1706,7 +1712,12 @@ pub fn run_stateless(cfg: &TransportCfg, sc: &mut Sc) {
             let o = sc.ex.st_read(if wd == 0 { 1 } else { 2 }, wn, &m, p.len());
             // (unless the application itself installed one and the same key by hand in both directions)
             let wdi = if wd == 0 { 0 } else { 1 };
-            let same_manual = skey[wdi].starts_with("M(") && skey[wdi] == rkey[1 - wdi];
+            let raw = sc.raw_keys;
+            let canon = |id: &str, dir: usize| match raw {
+                Some((a, b)) => id.replace('k', &format!("M({})", hex(if dir == 0 { &a } else { &b }))),
+                None => id.to_string(),
+            };
+            let same_manual = !canon(&skey[wdi], wdi).contains('k') && canon(&skey[wdi], wdi) == canon(&rkey[1 - wdi], 1 - wdi);
             if o.is_ok() && !(oneway) && !same_manual {
                 sc.viol("C04", format!("{}: message reflected to its sender was accepted", cfg.name));
             }
